@@ -724,7 +724,7 @@ func (w *World) confChange(spec ConfSpec) pb.ConfChangeI {
 // Apply executes one event. It never panics on a library assertion: the panic is
 // recorded in the StepRec and the world is marked dead.
 func (w *World) Apply(ev Event) (rec *StepRec) {
-	if ev.Kind == EvDeliverHeld {
+	if ev.Kind == EvDeliverHeld || ev.Kind == EvDupHeld {
 		// resolve to the delivery of the oldest held-back message from Node to Peer
 		best := -1
 		for i := range w.Net {
@@ -737,6 +737,13 @@ func (w *World) Apply(ev Event) (rec *StepRec) {
 			w.Steps++
 			w.runMonitors(rec)
 			return rec
+		}
+		if ev.Kind == EvDupHeld {
+			// a copy stays in the network, held back
+			w.seq++
+			cp := w.Net[best]
+			cp.Seq = w.seq
+			w.Net = append(w.Net[:best+1], append([]NetMsg{cp}, w.Net[best+1:]...)...)
 		}
 		for k, pos := range w.Distinct() {
 			if w.Net[pos].Enc == w.Net[best].Enc {
